@@ -189,4 +189,4 @@ def judge(case) -> Outcome:
 
 
 PINNED = []
-SUBS = {"parts": Sub(judge=judge, gen=gen_case, quick=900, thorough=80_000, min_decided=200)}
+SUBS = {"parts": Sub(judge=judge, gen=gen_case, quick=1500, thorough=80_000, min_decided=200)}
